@@ -318,7 +318,7 @@ class Executor:
     def run(self) -> List[Obligation]:
         c = self.contract
         fn = self.fn.node
-        params = [a.arg for a in fn.args.args]
+        params = [a.arg for a in fn.args.args] + [a.arg for a in fn.args.kwonlyargs]
         if fn.args.vararg or fn.args.kwarg or fn.args.kwonlyargs:
             if not getattr(c, "allow_star", False):
                 raise Unsupported("*args / **kwargs / keyword-only parameters")
@@ -334,6 +334,14 @@ class Executor:
             self.param_terms[fn.args.vararg.arg] = t
             st.env[fn.args.vararg.arg] = sv_val(t)
             st.assume(T.alloc0[t], cls(t) == K("tuple"))
+        if fn.args.kwarg:
+            t = z3.Const("p_" + fn.args.kwarg.arg, Val)
+            self.param_terms[fn.args.kwarg.arg] = t
+            st.env[fn.args.kwarg.arg] = sv_val(t)
+            # the ** dictionary is built by the call: it belongs to this activation (not an entry object)
+            st.assume(z3.Not(T.alloc0[t]), cls(t) == K("dict"))
+            hk = Heap(self, st)
+            hk.set("alloc", z3.Store(hk.arr("alloc"), t, True))
         # closure variables (free variables of nested functions), declared by the sidecar
         for name in getattr(c, "free_vars", []):
             t = z3.Const("fv_" + name, Val)
@@ -1147,6 +1155,10 @@ class Executor:
             if node.attr == "__class__":
                 outs.append((s, "val", sv_val(cls(ot))))
                 continue
+            if node.attr == "__dict__":
+                # the instance dictionary (objects with __slots__ are outside the model: stated assumption)
+                outs.append((s, "val", sv_val(T.idict(ot))))
+                continue
             h = Heap(self, s)
             outs.append((s, "val", sv_val(h.attr(ot, node.attr))))
         return outs
@@ -1409,6 +1421,63 @@ class Executor:
             for j, v in enumerate(vs):
                 arr = z3.Store(arr, j, self.val_of(v))
             o = self.new_list(s, z3.IntVal(len(vs)), arr, hint="list")
+            outs.append((s, "val", sv_val(o)))
+        return outs
+
+    def expr_Set(self, node, st):
+        """{a, *xs[:n], *d}: a fresh set defined by membership.  A starred operand must be a list /
+        tuple (optionally sliced `[:upper]`), or a dict / set (its keys / members); kinds from the sidecar."""
+        plain = [e for e in node.elts if not isinstance(e, ast.Starred)]
+        starred = [e.value for e in node.elts if isinstance(e, ast.Starred)]
+        bases, uppers = [], []
+        for e in starred:
+            if isinstance(e, ast.Subscript) and isinstance(e.slice, ast.Slice):
+                if e.slice.lower is not None or e.slice.step is not None or e.slice.upper is None:
+                    raise Unsupported(f"slice form in set display at {self.where(node)}")
+                bases.append(e.value)
+                uppers.append(e.slice.upper)
+            else:
+                bases.append(e)
+                uppers.append(None)
+        ups = [u for u in uppers if u is not None]
+        outs = []
+        for s, k, vs in self.eval_many(plain + bases + ups, st):
+            if k == "exc":
+                outs.append((s, k, vs))
+                continue
+            h = Heap(self, s)
+            pv = [self.val_of(v) for v in vs[: len(plain)]]
+            bv = [as_val(v) for v in vs[len(plain) : len(plain) + len(bases)]]
+            uv = iter(vs[len(plain) + len(bases) :])
+            x = z3.Const("sx", Val)
+            j = z3.Int("sj")
+            members = [x == p for p in pv]
+            hashable_facts = [T.hashable(p) for p in pv]
+            for b_node, b, up in zip(bases, bv, uppers):
+                kind = self.container_kind(b_node)
+                if kind in ("list", "tuple", "seq"):
+                    n = h.llen(b)
+                    if up is not None:
+                        u = as_int(next(uv))
+                        u = z3.If(u < 0, z3.If(n + u < 0, 0, n + u), u)
+                        n = z3.If(u < n, u, n)
+                    members.append(z3.Exists([j], z3.And(j >= 0, j < n, x == h.lget(b, j))))
+                    jj = z3.Int("shj")
+                    hashable_facts.append(T.forall([jj], z3.Implies(z3.And(jj >= 0, jj < n), T.hashable(h.lget(b, jj))), patterns=[h.lget(b, jj)]))
+                elif kind in ("dict", "set"):
+                    members.append(h.arr("dhas")[b][x])
+                else:
+                    raise Unsupported(f"starred operand of kind {kind} in set display at {self.where(node)}")
+            unh = s.fork().assume(z3.Not(z3.And(*hashable_facts))) if hashable_facts else None
+            if unh is not None and self.feasible(unh) and not self.definitely_infeasible(unh):
+                outs.append((unh, "exc", self.new_obj(unh, K("TypeError"), "exc")))
+            if hashable_facts:
+                s.assume(*hashable_facts)
+            has = self.fresh("sdisp", T.ArrVB)
+            s.assume(T.forall([x], has[x] == z3.Or(*members) if members else z3.Not(has[x]), patterns=[has[x]]))
+            ln = self.fresh("sdl", T.I)
+            s.assume(ln >= 0)
+            o = self.new_dict(s, has, T.NOGET, ln, K("set"), "set")
             outs.append((s, "val", sv_val(o)))
         return outs
 
@@ -1701,6 +1770,10 @@ class SpecCtx:
 
     def alloc(self, o):
         return Heap(self.ex, self.st).alloc(o)
+
+    def alloc0(self, o):
+        """allocated when the function is entered (at a call site: when the call is made)"""
+        return T.alloc0[o]
 
     def arr(self, name, o):
         """whole inner array of object o in the current heap (e.g. arr('dhas', d))"""
